@@ -162,4 +162,26 @@ def MasterPlaylist.associatedWith (p : MasterPlaylist) (v : VariantStream) : Lis
     | m :: ms, i => if v.isAssociated m then i :: go ms (i + 1) else go ms (i + 1)
   go p.media 0
 
+/-- `audio_streams`, `video_streams`, `unassociated_streams` as positions in `variant_streams` -/
+def VariantStream.hasAudio : VariantStream → Bool
+  | .extXStreamInf _ _ (some _) _ _ _ => true
+  | _ => false
+
+def VariantStream.hasVideo (v : VariantStream) : Bool := v.streamData.video.isSome
+
+def VariantStream.isUnassociated : VariantStream → Bool
+  | .extXStreamInf _ _ none none none d => d.video.isNone
+  | .extXIFrame _ d => d.video.isNone
+  | _ => false
+
+def positionsWhere {α} (f : α → Bool) (l : List α) : List Nat :=
+  let rec go : List α → Nat → List Nat
+    | [], _ => []
+    | x :: xs, i => if f x then i :: go xs (i + 1) else go xs (i + 1)
+  go l 0
+
+def MasterPlaylist.audioStreams (p : MasterPlaylist) : List Nat := positionsWhere VariantStream.hasAudio p.variant_streams
+def MasterPlaylist.videoStreams (p : MasterPlaylist) : List Nat := positionsWhere VariantStream.hasVideo p.variant_streams
+def MasterPlaylist.unassociatedStreams (p : MasterPlaylist) : List Nat := positionsWhere VariantStream.isUnassociated p.variant_streams
+
 end Hls
